@@ -66,3 +66,7 @@ add("C17", "Hypothesis-generated AmpGen option ASTs rendered to text vs referenc
     "Option texts are generated structure-first; event type, parameter/constant tables, the full expansion in file order, tags and couplings at every node are compared with a reference computed from the AST.",
     "Trusted: pbt/ampgen.ref_read/ref_expand, the hand-verified name->PDG-ID pool, particle's str(). Lookup memo per worker (pure function of its key).",
     "DESIGN.md 4 C17")
+add("C18", "exhaustive enumeration of tree shapes x leaf kinds x event-type orderings for the permutation set; Hypothesis four-body option files x both back ends, generated code parsed and compared per permutation",
+    "The permutation sets are enumerated completely for up to 4 leaves; the emitted spin factors, lineshapes (kind, L, mass indices) and counts are parsed from the generated text of both languages and compared with an independent prediction for every supported spin structure.",
+    "Trusted: brute-force permutation reference, the enum table transcribed from upstream's pinned reference output (cross-checked at run time), spin classes of the pinned pool, the regex reader pbt/goofit_read.py.",
+    "DESIGN.md 4 C18")
